@@ -5,9 +5,11 @@ See Also:
   - [eolib.protocol._generated.net][]
 """
 
+# The generated package is imported first, so that its own `client` and `server` subpackages do
+# not replace the ones below in this namespace.
+from .._generated.net import *
+
 from .packet import *
 
 from .client import *
 from .server import *
-
-from .._generated.net import *
